@@ -1495,6 +1495,22 @@ def alias_search(ctx):
                 if not same(full(rec_b), snap_b):
                     viol.append({"key": f"aliasing:receiver-changed-later:{attr}", "case": case,
                                  "what": "a later change of the model the values were read from changed the receiving model"})
+                # (4) a caller-owned array (full length, float64) is an input, not shared state: the caller may go on using it
+                for tgt, vals4 in (("anis", ani), ("angles", ang), ("len_scale", [2.0] + [2.0 * a for a in ani])):
+                    buf = np.array(vals4, dtype=float)
+                    recv = mk(cname, dim, t_rec, len_scale=2.0)
+                    try:
+                        setattr(recv, tgt, buf)
+                    except ValueError:
+                        continue
+                    snap4 = full(recv)
+                    buf *= -3.0
+                    buf += 0.5
+                    ev += 1
+                    if not same(full(recv), snap4):
+                        viol.append({"key": f"aliasing:caller-array-shared:{tgt}", "case": dict(case, target=tgt),
+                                     "what": f"after `model.{tgt} = array` a later in-place change of the caller's array changed the model "
+                                             "(no assignment, no bounds check)"})
                 # (3) save / change / write back on ONE model
                 m = mk(cname, dim, t_rec, len_scale=2.0, anis=ani, angles=ang)
                 ref = full(m)
